@@ -300,7 +300,7 @@ class Report:
                 k = json.dumps(sig, sort_keys=True)
                 groups[k] = groups.get(k, 0) + 1
             print("violation classes (%d):" % len(groups))
-            for k, n in sorted(groups.items(), key=lambda x: -x[1])[:40]:
+            for k, n in sorted(groups.items(), key=lambda x: -x[1])[:int(os.environ.get('VERIF_MAXCLASSES', '40'))]:
                 print("  %6d  %s" % (n, k[:300]))
             rdir = os.path.join(VERIF, "replays")
             os.makedirs(rdir, exist_ok=True)
